@@ -33,6 +33,7 @@ def run(ctx):
     from . import shapes
 
     ctx.each(shapes.resolved_name_rule, ctx, repo, "R16l", "programs", "ProgramSet")
+    ctx.each(r16m, ctx, repo)
     ctx.each(informational, ctx, repo)
 
 
@@ -635,3 +636,70 @@ def r16k(ctx, repo, T):
                 ctx.check(a == b, "R16k", fi, enclosing_stmt(c), "`%s` compares two %s names" % (ast.unparse(c)[:50], SORTN[a]), "`%s` compares a %s name with a %s name: it is never true, so whatever it selects (parameters that programs overwrite, entries to remove) is silently empty" % (ast.unparse(c)[:70], SORTN[a], SORTN[b]))
     ctx.extra["sorted_name_comparisons"] = n
     ctx.ok("R16k", "atomica", "%d comparisons between names of definite sort examined" % n)
+
+
+def r16m(ctx, repo):
+    from ..core import boolx as B
+    from ..core.cfg import branch_guards
+
+    ctx.rule("R16m", "removing an item from a program set removes exactly that item's entries: remove_pop deletes the covouts whose population component equals the resolved code name (and only those) and strips the population from every program that targets it; remove_comp strips the compartment from every program that targets it; remove_par deletes the covouts of that parameter; remove_program deletes the program from every covout that has it and refreshes that covout; each ends by deleting the item itself")
+    # remove_pop
+    fi = repo.func("programs", "ProgramSet.remove_pop")
+    dels = [d for d in own_nodes(fi.node) if isinstance(d, ast.Delete) and "covouts" in ast.unparse(d)]
+    ok = len(dels) == 1
+    if ok:
+        lp = dels[0]
+        while lp is not None and not isinstance(lp, ast.For):
+            lp = getattr(lp, "_parent", None)
+        ok = lp is not None and isinstance(lp.target, ast.Tuple) and len(lp.target.elts) == 2 and "covouts" in ast.unparse(lp.iter)
+        if ok:
+            par_v, pop_v = (e.id for e in lp.target.elts)
+            g = B.cond(branch_guards(dels[0], stop=lp))
+            ok = B.equivalent(g, B.parse_cond("%s == code_name" % pop_v)) and ast.unparse(dels[0].targets[0].slice) in ("(%s, %s)" % (par_v, pop_v), "%s, %s" % (par_v, pop_v))
+            # iterating a snapshot of the keys while deleting
+            ok = ok and (ast.unparse(lp.iter).startswith("list(") or ast.unparse(lp.iter).startswith("tuple(") or "copy" in ast.unparse(lp.iter))
+    ctx.check(ok, "R16m", fi, dels[0] if dels else fi.node, "remove_pop deletes exactly the covouts of that population", "remove_pop does not delete `covouts[(par, pop)]` exactly for the keys whose population equals the resolved code name (iterating a snapshot of the keys): other populations' outcomes are deleted, or the removed population's stay behind", stmt_text="remove_pop-covouts")
+    for q, coll, field in (("ProgramSet.remove_pop", "target_pops", "pops"), ("ProgramSet.remove_comp", "target_comps", "comps")):
+        f = repo.func("programs", q)
+        rm = [c for c in ast.walk(f.node) if isinstance(c, ast.Call) and isinstance(c.func, ast.Attribute) and c.func.attr == "remove" and ast.unparse(c.func.value).endswith("." + coll)]
+        ok = len(rm) == 1 and [ast.unparse(a) for a in rm[0].args] == ["code_name"]
+        if ok:
+            lp = enclosing_stmt(rm[0])
+            while lp is not None and not isinstance(lp, ast.For):
+                lp = getattr(lp, "_parent", None)
+            owner = ast.unparse(rm[0].func.value)
+            ok = lp is not None and ast.unparse(lp.iter).endswith(".programs.values()") and B.equivalent(B.cond(branch_guards(enclosing_stmt(rm[0]), stop=lp)), B.parse_cond("code_name in %s" % owner))
+        ctx.check(ok, "R16m", f, enclosing_stmt(rm[0]) if rm else f.node, "%s strips the item from every program that targets it" % q, "%s does not remove the resolved code name from `%s` of every program that has it" % (q, coll), stmt_text="strip:%s" % coll)
+        last = f.node.body[-1]
+        ctx.check(isinstance(last, ast.Delete) and ast.unparse(last.targets[0]) == "%s.%s[code_name]" % (f.params[0], field), "R16m", f, last, "%s ends by deleting the item" % q, "%s does not end with `del self.%s[code_name]`" % (q, field), stmt_text="del-item:%s" % field)
+    # remove_par
+    f = repo.func("programs", "ProgramSet.remove_par")
+    dels = [d for d in own_nodes(f.node) if isinstance(d, ast.Delete) and "covouts" in ast.unparse(d)]
+    ok = len(dels) == 1
+    if ok:
+        lp = dels[0]
+        while lp is not None and not isinstance(lp, ast.For):
+            lp = getattr(lp, "_parent", None)
+        ok = lp is not None and ast.unparse(lp.iter) in ("%s.pops" % f.params[0], "%s.pops.keys()" % f.params[0], "list(%s.pops)" % f.params[0]) and isinstance(lp.target, ast.Name)
+        if ok:
+            key = "(code_name, %s)" % lp.target.id
+            t0 = dels[0].targets[0]
+            ok = isinstance(t0, ast.Subscript) and ast.unparse(t0.value) == "%s.covouts" % f.params[0] and isinstance(t0.slice, ast.Tuple) and [ast.unparse(e) for e in t0.slice.elts] == ["code_name", lp.target.id] and B.equivalent(B.cond(branch_guards(dels[0], stop=lp)), B.parse_cond("%s in %s.covouts" % (key, f.params[0])))
+    ctx.check(ok, "R16m", f, dels[0] if dels else f.node, "remove_par deletes the parameter's covouts in every population", "remove_par does not delete `covouts[(code_name, pop)]` for every population that has one", stmt_text="remove_par-covouts")
+    dl = [d for d in own_nodes(f.node) if isinstance(d, ast.Delete) and ast.unparse(d.targets[0]) == "%s.pars[code_name]" % f.params[0] and not branch_guards(d, stop=f.node)]
+    ctx.check(len(dl) == 1, "R16m", f, dl[0] if dl else f.node, "remove_par deletes the parameter entry", "remove_par does not (unconditionally) `del self.pars[code_name]`", stmt_text="del-item:pars")
+    # remove_program
+    f = repo.func("programs", "ProgramSet.remove_program")
+    dl = [d for d in own_nodes(f.node) if isinstance(d, ast.Delete) and ast.unparse(d.targets[0]) == "%s.programs[code_name]" % f.params[0] and not branch_guards(d, stop=f.node)]
+    ctx.check(len(dl) == 1, "R16m", f, dl[0] if dl else f.node, "remove_program deletes the program entry", "remove_program does not (unconditionally) `del self.programs[code_name]`", stmt_text="del-item:programs")
+    dels = [d for d in own_nodes(f.node) if isinstance(d, ast.Delete) and ".progs[" in ast.unparse(d)]
+    ok = len(dels) == 1
+    if ok:
+        tgt = dels[0].targets[0]
+        cov = ast.unparse(tgt.value.value)  # self.covouts[(par, pop)]
+        g = B.cond(branch_guards(dels[0], stop=f.node))
+        key = ast.unparse(tgt.value.value.slice)
+        ok = ast.unparse(tgt.slice) == "code_name" and B.equivalent(g, B.parse_cond("%s in %s.covouts and code_name in %s.progs" % (key if key.startswith("(") else "(%s)" % key, f.params[0], cov)))
+        blk = dels[0]._parent.body if hasattr(dels[0], "_parent") else []
+        ok = ok and any(isinstance(x, ast.Expr) and ast.unparse(x.value) == "%s.update_outcomes()" % cov for x in blk[blk.index(dels[0]) + 1 :])
+    ctx.check(ok, "R16m", f, dels[0] if dels else f.node, "remove_program deletes the program from every covout that has it and refreshes the cache", "remove_program does not delete `covouts[(par, pop)].progs[code_name]` exactly where it exists and refresh that covout's cached outcomes afterwards", stmt_text="remove_program-covouts")
